@@ -34,6 +34,18 @@ struct Shared {
     /// cids whose service call has ended
     done: Mutex<Vec<u64>>,
     active: [AtomicUsize; MAXW],
+    /// the next service call panics synchronously (op K)
+    poison: std::sync::atomic::AtomicBool,
+    /// worker indices whose service call panicked
+    panicked: Mutex<Vec<usize>>,
+}
+
+/// in-progress count of a worker; also released when the future is dropped unfinished (worker torn down)
+struct Active(Arc<Shared>, usize);
+impl Drop for Active {
+    fn drop(&mut self) {
+        self.0.active[self.1].fetch_sub(1, Ordering::SeqCst);
+    }
 }
 
 /// Worker index of a service instance: `Accept::start` starts the workers one after the other in index order and
@@ -46,12 +58,28 @@ fn thread_idx() -> Option<usize> {
     n.strip_prefix("actix-server worker ")?.parse().ok()
 }
 
-async fn serve<S: AsyncReadExt + AsyncWriteExt + Unpin>(mut s: S, call: usize, w: usize, sh: Arc<Shared>) -> Result<(), ()> {
-    let w = match thread_idx() {
+fn resolve_widx(w: usize, respawned: bool) -> usize {
+    match thread_idx() {
+        // a replacement worker is a later instantiation of the factory; its thread name carries the index it took over
+        Some(t) if respawned => t.min(MAXW - 1),
         Some(t) if t != w => MAXW - 1, // instantiation order and thread name disagree: show it
         _ => w.min(MAXW - 1),
-    };
+    }
+}
+
+/// the synchronous part of `Service::call`
+fn enter(call: usize, w: usize, nworkers: usize, sh: &Arc<Shared>) -> (usize, Active) {
+    let _ = call;
+    let w = resolve_widx(w, w >= nworkers);
+    if sh.poison.swap(false, Ordering::SeqCst) {
+        sh.panicked.lock().unwrap().push(w);
+        panic!("poisoned connection");
+    }
     sh.active[w].fetch_add(1, Ordering::SeqCst);
+    (w, Active(sh.clone(), w))
+}
+
+async fn serve<S: AsyncReadExt + AsyncWriteExt + Unpin>(mut s: S, call: usize, w: usize, act: Active, sh: Arc<Shared>) -> Result<(), ()> {
     // the client sends its id as 8 bytes right after connecting
     let mut idb = [0u8; 8];
     let cid = match s.read_exact(&mut idb).await {
@@ -67,7 +95,7 @@ async fn serve<S: AsyncReadExt + AsyncWriteExt + Unpin>(mut s: S, call: usize, w
             Ok(_) => {}
         }
     }
-    sh.active[w].fetch_sub(1, Ordering::SeqCst);
+    drop(act);
     sh.done.lock().unwrap().push(cid);
     Ok(())
 }
@@ -90,6 +118,32 @@ impl Client {
             Client::Tcp(s) => s.write_all(&b),
             Client::Uds(s) => s.write_all(&b),
         };
+    }
+    /// the server closed the connection although no service call ever greeted it
+    fn closed_by_peer(&mut self) -> bool {
+        let mut buf = [0u8; 1];
+        let r = match self {
+            Client::Tcp(s) => {
+                s.set_nonblocking(true).ok();
+                let r = s.peek(&mut buf);
+                s.set_nonblocking(false).ok();
+                r
+            }
+            Client::Uds(s) => {
+                s.set_nonblocking(true).ok();
+                // UnixStream::peek is unstable: recv(MSG_PEEK) through libc
+                use std::os::unix::io::AsRawFd;
+                // SAFETY: plain recv on our own descriptor into a 1-byte buffer
+                let n = unsafe { libc::recv(s.as_raw_fd(), buf.as_mut_ptr() as *mut libc::c_void, 1, libc::MSG_PEEK) };
+                s.set_nonblocking(false).ok();
+                if n < 0 { Err(std::io::Error::last_os_error()) } else { Ok(n as usize) }
+            }
+        };
+        match r {
+            Ok(0) => true,
+            Ok(_) => false,
+            Err(e) => e.kind() != std::io::ErrorKind::WouldBlock,
+        }
     }
     /// any byte beyond the single greeting byte is a second delivery of the same connection
     fn extra_greetings(&mut self) -> usize {
@@ -131,6 +185,7 @@ fn start(w: usize, l: usize, chain: &[String], dir: &PathBuf, sh: &Arc<Shared>, 
         let body = async move {
             let mut b = Server::build().workers(w).max_concurrent_connections(l).disable_signals().shutdown_timeout(1);
             let mut addrs = Vec::new();
+            let nworkers = w;
             for (call, it) in chain.iter().enumerate() {
                 let sh2 = sh.clone();
                 let inst = Arc::new(AtomicUsize::new(0));
@@ -140,13 +195,19 @@ fn start(w: usize, l: usize, chain: &[String], dir: &PathBuf, sh: &Arc<Shared>, 
                 let tcp = move || {
                     let sh3 = sh2.clone();
                     let w = inst2.fetch_add(1, Ordering::SeqCst) / per_worker;
-                    fn_service(move |s: TcpStream| serve(s, call, w, sh3.clone()))
+                    fn_service(move |s: TcpStream| {
+                        let (w, act) = enter(call, w, nworkers, &sh3);
+                        serve(s, call, w, act, sh3.clone())
+                    })
                 };
                 let sh2 = sh.clone();
                 let uds = move || {
                     let sh3 = sh2.clone();
                     let w = inst.fetch_add(1, Ordering::SeqCst);
-                    fn_service(move |s: UnixStream| serve(s, call, w, sh3.clone()))
+                    fn_service(move |s: UnixStream| {
+                        let (w, act) = enter(call, w, nworkers, &sh3);
+                        serve(s, call, w, act, sh3.clone())
+                    })
                 };
                 let name = format!("s{call}");
                 let r = match it.as_bytes()[0] {
@@ -300,7 +361,7 @@ fn expected_counts(exp: &str) -> Vec<usize> {
         .map(|s| {
             let body = s.split('=').nth(1).unwrap_or("");
             let list = body.split('/').next().unwrap_or("");
-            list.split(',').filter(|x| !x.is_empty()).count()
+            list.split(',').filter(|x| !x.is_empty() && !x.starts_with("x@") && !x.ends_with("@drop")).count()
         })
         .collect()
 }
@@ -318,6 +379,7 @@ fn run_once(line: &str, dir: &PathBuf, quiet: Duration) -> String {
         Err(e) => return format!("START_FAILED {e}"),
     };
     let mut clients: Vec<(u64, Client)> = Vec::new();
+    let mut poisoned: Vec<Client> = Vec::new();
     let mut cid = 0u64;
     let mut seen = 0usize;
     let mut out = Vec::new();
@@ -327,15 +389,22 @@ fn run_once(line: &str, dir: &PathBuf, quiet: Duration) -> String {
         let mut note = String::new();
         let rest = &op[1..];
         match op.as_bytes()[0] {
-            b'c' | b'E' => {
+            b'c' | b'E' | b'K' => {
                 let tok: usize = rest.parse().unwrap();
                 cid += 1;
+                if op.as_bytes()[0] == b'K' {
+                    sh.poison.store(true, Ordering::SeqCst);
+                }
                 // the EMFILE window and the quiet period after it stay well below the 500 ms back-off
-                let r = if op.as_bytes()[0] == b'c' { connect(&run.addrs[tok]) } else { connect_emfile(&run.addrs[tok], quiet.min(Duration::from_millis(200))) };
+                let r = if op.as_bytes()[0] != b'E' { connect(&run.addrs[tok]) } else { connect_emfile(&run.addrs[tok], quiet.min(Duration::from_millis(200))) };
                 match r {
                     Ok(mut c) => {
                         c.send_id(cid);
-                        clients.push((cid, c));
+                        if op.as_bytes()[0] == b'K' {
+                            poisoned.push(c); // never greeted: its service call panics
+                        } else {
+                            clients.push((cid, c));
+                        }
                     }
                     Err(e) => note = format!("!connect:{}", e.kind()),
                 }
@@ -366,6 +435,11 @@ fn run_once(line: &str, dir: &PathBuf, quiet: Duration) -> String {
             b'+' => std::thread::sleep(Duration::from_millis(rest.parse().unwrap())),
             _ => note = "!bad-op".into(),
         }
+        if op.as_bytes()[0] == b'K' && !wait_until_for(if starved { Duration::from_secs(2) } else { BOUND }, || !sh.poison.load(Ordering::SeqCst)) {
+            note.push_str("!poisoned-connection-never-reached-a-service-call");
+            sh.poison.store(false, Ordering::SeqCst);
+            starved = true;
+        }
         let want = seen + exp.get(k).copied().unwrap_or(0);
         // once a run has failed to deliver in time the remaining steps only wait 2 s each
         let bound = if starved { Duration::from_secs(2) } else { BOUND };
@@ -382,18 +456,26 @@ fn run_once(line: &str, dir: &PathBuf, quiet: Duration) -> String {
         if stray > 0 {
             note.push_str("!service-call-on-an-unknown-worker");
         }
-        out.push(format!(
-            "{}={}/a{}{}",
-            op,
-            new.iter().map(|(c, call, w)| format!("{c}@{call}w{w}")).collect::<Vec<_>>().join(","),
-            act.join("."),
-            note
-        ));
+        let mut items: Vec<String> = sh.panicked.lock().unwrap().drain(..).map(|w| format!("x@w{w}")).collect();
+        items.extend(new.iter().map(|(c, call, w)| format!("{c}@{call}w{w}")));
+        // a connection the server accepted and then closed without any service call ("no workers")
+        let mut dropped = Vec::new();
+        for (c, cl) in clients.iter_mut() {
+            if !new.iter().any(|(n, _, _)| n == c) && !sh.served.lock().unwrap().iter().any(|(n, _, _)| n == c) && cl.closed_by_peer() {
+                dropped.push(*c);
+            }
+        }
+        for c in &dropped {
+            items.push(format!("{c}@drop"));
+        }
+        clients.retain(|(c, _)| !dropped.contains(c));
+        out.push(format!("{}={}/a{}{}", op, items.join(","), act.join("."), note));
     }
     for (_, c) in clients.iter_mut() {
         multi += c.extra_greetings();
     }
     drop(clients);
+    drop(poisoned);
     let stopped = block_on(run.handle.stop(false)).is_some();
     let joined = {
         let (tx, rx) = mpsc::channel();
